@@ -70,7 +70,7 @@ def build_hv(cmd="hv", race=False):
 
 def work_tag():
     rd = repo_dir()
-    return "" if rd == "/repo" else "_" + hashlib.sha1(rd.encode()).hexdigest()[:8]
+    return ("" if rd == "/repo" else "_" + hashlib.sha1(rd.encode()).hexdigest()[:8]) + os.environ.get("VERIF_RUN_TAG", "")
 
 
 def workdir(name):
